@@ -166,6 +166,20 @@ impl<'a, 'b> G<'a, 'b> {
                 let a = self.arg(&T::Int, sc, level, 0);
                 E::CallV(Box::new(E::Lambda(vec![(p, T::Int, None)], Box::new(Body { decls: vec![], ret: body }))), vec![a])
             }
+            7 if depth > 0 => {
+                // closures that escape through a compound: stored in an array or a tuple, fetched, called
+                let f1 = self.arg(&fn_int(), sc, level, 0);
+                let f2 = self.arg(&fn_int(), sc, level, 0);
+                let a = self.arg(&T::Int, sc, level, 0);
+                let k = self.t.below(2);
+                let callee = if self.t.bool() {
+                    E::Index(Box::new(E::Arr(vec![f1, f2])), Box::new(int(k as i64)), Style::Operator)
+                } else {
+                    let c = self.constant();
+                    E::Item(Box::new(E::Tup(vec![f1, int(c), f2])), if k == 0 { 0 } else { 2 })
+                };
+                E::CallV(Box::new(callee), vec![a])
+            }
             _ => int(self.constant()),
         }
     }
